@@ -1240,6 +1240,16 @@ def check_C10(A, R, tier):
                 continue
             ok2, why2 = forall_loop_taken(A, run, v)
             if ok2:
+                direct = not any(isinstance(r_, tuple) and r_[0] == "via" for r_ in v["key"][1])
+                if direct and not ok1:
+                    # no intermediate collection: the signal is built while scanning the jobs; a filter in front of the scan must
+                    # keep a job in this state
+                    sym = v["key"][0]
+                    frs = [f for f in run.by_kind("filter_result") if isinstance(sym, tuple) and f.get("fid") == sym[1] and f["bb"] == sym[2]]
+                    if all(f["may_true"] and not f["may_false"] for f in frs):
+                        ok1, why1 = True, ""
+                    else:
+                        why1 = "the filter that selects the jobs to abort can drop a job in this state"
                 break
         R.ob("R10.1", "abort_remaining | job in state %s | on every path its index is collected and turned into an abort signal" % A.sname(d),
              ok1 and ok2, detail=why1 if not ok1 else why2)
